@@ -1,12 +1,217 @@
 /-
-Driver commands of property C04 (core Lean only).  Command names start with "c04.".
+Driver commands of properties C04 and C15 (core Lean only).  Command names start with "c04." / "c15."
+(the C15 handler in Hts/Drv/C15.lean re-uses the machinery defined here).
+
+  c04.codes <kind> <cfg> <recs>                         -> result code per Add (o r f p X), stops at X
+  c04.add   <kind> <cfg> <recs>                         -> codes, digest of the written index
+  c04.q     <kind> <cfg> <recs> <phase> <strategy> <qs> -> Chunks answers; phase pre | rt | merged
+
+  kind  bai | csi | tbx
+  cfg   bai: -      csi: minShift,depth,version,auxhex      tbx: format,zb,nc,bc,ec,meta,skip,namehex/namehex/…
+  recs  rid,start,end,flags,cb,ce;…   flags: 1 placed, 2 mapped, 4 mate-unmapped (bai)
+  qs    rid,beg,end;…
 -/
 import Hts.Drv.Util
+import Hts.Model.Index
+import Hts.Model.Csi
+import Hts.Model.Tabix
+import Hts.Model.IndexIO
+import Hts.Model.Coord
 namespace Hts.Drv.C04
-open Hts.Drv
+open Hts.Drv Hts.Model Hts.Model.Index Hts.Model.IndexIO
+
+structure GRec where
+  rid : Int
+  start : Int
+  stop : Int
+  flags : Nat
+  cb : Int
+  ce : Int
+
+def GRec.placed (r : GRec) : Bool := r.flags % 2 = 1
+def GRec.mapped (r : GRec) : Bool := r.flags / 2 % 2 = 1
+def GRec.mateUnm (r : GRec) : Bool := r.flags / 4 % 2 = 1
+
+inductive Cfg
+  | bai
+  | csi (minShift depth version : Nat) (aux : Bytes)
+  | tbx (hdr : Tabix.Header) (names : List Tabix.Name)
+
+inductive St
+  | bai (i : Index)
+  | csi (i : Csi.CIndex)
+  | tbx (t : Tabix.TIndex) (pool : List Tabix.Name)
+
+def parseInts (s : String) : Option (List Int) := (s.splitOn ",").mapM parseInt
+
+def parseRecs (s : String) : Option (List GRec) :=
+  if s == "-" then some [] else
+  (s.splitOn ";").mapM (fun t => do
+    match ← parseInts t with
+    | [rid, st, en, fl, cb, ce] => some ⟨rid, st, en, fl.toNat, cb, ce⟩
+    | _ => none)
+
+def parseQueries (s : String) : Option (List (Int × Int × Int)) :=
+  if s == "-" then some [] else
+  (s.splitOn ";").mapM (fun t => do
+    match ← parseInts t with
+    | [rid, b, e] => some (rid, b, e)
+    | _ => none)
+
+def toBytes (ns : List Nat) : Bytes := ns.map UInt8.ofNat
+
+def parseCfg (kind cfg : String) : Option Cfg :=
+  match kind with
+  | "bai" => some .bai
+  | "csi" =>
+    match cfg.splitOn "," with
+    | [ms, d, v, aux] => do
+      let ms ← parseNat ms
+      let d ← parseNat d
+      let v ← parseNat v
+      let aux ← parseHex aux
+      some (.csi ms d v (toBytes aux))
+    | _ => none
+  | "tbx" =>
+    match cfg.splitOn "," with
+    | [f, z, nc, bc, ec, mc, sk, names] => do
+      let f ← parseNat f
+      let z ← parseNat z
+      let nc ← parseInt nc
+      let bc ← parseInt bc
+      let ec ← parseInt ec
+      let mc ← parseInt mc
+      let sk ← parseInt sk
+      let ns ← (names.splitOn "/").mapM parseHex
+      some (.tbx { format := f, zeroBased := z = 1, nameCol := nc, begCol := bc, endCol := ec, metaChar := mc, skip := sk }
+        (ns.map toBytes))
+    | _ => none
+  | _ => none
+
+def initSt : Cfg → St
+  | .bai => .bai {}
+  | .csi ms d v aux => .csi { aux := aux, version := v, minShift := ms, depth := d }
+  | .tbx h pool => .tbx { hdr := h } pool
+
+/-- the harness's `name(i)`: the pool entry or "?i" -/
+def poolName (pool : List Tabix.Name) (i : Int) : Tabix.Name :=
+  if i < 0 then (s!"?{i}").toUTF8.toList
+  else match pool[i.toNat]? with
+    | some n => n
+    | none => (s!"?{i}").toUTF8.toList
+
+def addOne (st : St) (r : GRec) : St × AddRes :=
+  let c : Chunk := ⟨r.cb, r.ce⟩
+  match st with
+  | .bai i =>
+    let x := Bai.add Coord.binFor i
+      { hasRef := decide (r.rid ≥ 0), rid := r.rid, pos := r.start, stop := r.stop,
+        unmapped := !r.mapped, mateUnmapped := r.mateUnm, chunk := c }
+    (.bai x.1, x.2)
+  | .csi i =>
+    let x := Csi.add Coord.reg2bin i
+      { rid := r.rid, start := r.start, stop := r.stop, chunk := c, placed := r.placed, mapped := r.mapped }
+    (.csi x.1, x.2)
+  | .tbx t pool =>
+    let x := Tabix.add Coord.binFor t
+      { name := poolName pool r.rid, start := r.start, stop := r.stop, chunk := c, placed := r.placed, mapped := r.mapped }
+    (.tbx x.1 pool, x.2)
+
+def codeOf : AddRes → Char
+  | .ok => 'o' | .errRange => 'r' | .errRefOrder => 'f' | .errPosOrder => 'p' | .panicIndex => 'X'
+
+/-- adds until the first panic -/
+def build (st : St) : List GRec → List Char → St × List Char
+  | [], acc => (st, acc.reverse)
+  | r :: rs, acc =>
+    let x := addOne st r
+    if x.2 = .panicIndex then (x.1, ('X' :: acc).reverse) else build x.1 rs (codeOf x.2 :: acc)
+
+def writeSt : St → Bytes
+  | .bai i => writeBai i
+  | .csi i => writeCsi i
+  | .tbx t _ => writeTabix t
+
+/-- `none` = the reader returned a nil index without an error -/
+def rereadSt (st : St) (bs : Bytes) : Except Fault (Option St) :=
+  match st with
+  | .bai _ => match readBai bs with
+    | .ok (some i) => .ok (some (.bai i))
+    | .ok none => .ok none
+    | .error e => .error e
+  | .csi _ => match readCsi bs with
+    | .ok i => .ok (some (.csi i))
+    | .error e => .error e
+  | .tbx _ pool => match readTabix bs with
+    | .ok (some t) => .ok (some (.tbx t pool))
+    | .ok none => .ok none
+    | .error e => .error e
+
+def parseStrategy (s : String) : Option (List Chunk → List Chunk) :=
+  if s == "identity" then some id
+  else if s == "adjacent" then some Local.adjacent
+  else if s == "squash" then some Local.squash
+  else match s.splitOn ":" with
+    | ["compress", n] => (parseInt n).map Local.compressor
+    | _ => none
+
+def mergeSt (s : List Chunk → List Chunk) : St → St
+  | .bai i => .bai (Index.mergeChunks s i)
+  | .csi i => .csi (Csi.mergeChunks s i)
+  | .tbx t pool => .tbx (Tabix.mergeChunks s t) pool
+
+def chunksText (cs : List Chunk) : String :=
+  "ok:" ++ ",".intercalate (cs.map (fun c => s!"{c.b}-{c.e}"))
+
+def qerrText : QErr → String
+  | .noRef => "err:noref" | .invalid => "err:invalid" | .panicSlice => "panic"
+
+def answer (st : St) (q : Int × Int × Int) : String :=
+  let (rid, b, e) := q
+  match st with
+  | .bai i => match Bai.chunks Coord.overlappingBinsFor Local.adjacent i rid b e with
+    | .ok cs => chunksText cs
+    | .error x => qerrText x
+  | .csi i => chunksText (Csi.chunks Coord.reg2bins Local.adjacent i rid b e)
+  | .tbx t pool => match Tabix.chunks Coord.overlappingBinsFor Local.adjacent t (poolName pool rid) b e with
+    | .ok cs => chunksText cs
+    | .error x => qerrText x
+
+def hex64 (x : UInt64) : String :=
+  String.ofList ((List.range 16).reverse.map (fun i => hexDigit (x.toNat / 16 ^ i % 16)))
+
+def digest (bs : Bytes) : String :=
+  let base := s!"{bs.length}:{hex64 (fnv64 bs)}"
+  if bs.length ≤ 600 then base ++ ":" ++ hexOfNats (bs.map UInt8.toNat) else base
+
+def setup (kind cfg recs : String) : Option (St × String) := do
+  let c ← parseCfg kind cfg
+  let rs ← parseRecs recs
+  let x := build (initSt c) rs []
+  some (x.1, String.ofList x.2)
 
 def handle (cmd : String) (args : List String) : Option String :=
   match cmd, args with
+  | "c04.codes", [kind, cfg, recs] => do
+    let (_, codes) ← setup kind cfg recs
+    some codes
+  | "c04.add", [kind, cfg, recs] => do
+    let (st, codes) ← setup kind cfg recs
+    some s!"{codes} {digest (writeSt st)}"
+  | "c04.q", [kind, cfg, recs, phase, strat, qs] => do
+    let (st, _) ← setup kind cfg recs
+    let qs ← parseQueries qs
+    let st' ← match phase with
+      | "pre" => some st
+      | "rt" => match rereadSt st (writeSt st) with
+        | .ok (some s) => some s
+        | _ => none
+      | "merged" => do
+        let s ← parseStrategy strat
+        some (mergeSt s st)
+      | _ => none
+    if qs.isEmpty then some "-" else
+    some (";".intercalate (qs.map (answer st')))
   | _, _ => none
 
 end Hts.Drv.C04
